@@ -220,6 +220,18 @@ func (fc *FnCtx) havocWrites(st *State, ws *writeSet) {
 		}
 	}
 	fc.hvOrder = sub
+	np := len(st.pending)
 	fc.havocAll(st)
+	st.pending = st.pending[:np] // not a havoc of everything: only the keys of the write set
 	fc.hvOrder = saved
+	for k := range ws.keys {
+		if _, declared := fc.hv[k]; declared {
+			continue
+		}
+		if strings.HasPrefix(k, "S|") {
+			st.pending = append(st.pending, pendHavoc{"pat", "F|" + k[2:] + ".*", len(fc.hvOrder)})
+		} else {
+			st.pending = append(st.pending, pendHavoc{"pat", k, len(fc.hvOrder)})
+		}
+	}
 }
